@@ -8,6 +8,7 @@ import (
 )
 
 var steppedPart = pbt.Part[Case]{Name: "stepped", Quick: 2400, Thorough: 40000, Gen: genStepped, Check: checkCase}
+
 // pingPart: heartbeat silence on some connections must end exactly the subscriptions on them. Real
 // timers are involved, so the part is small and its slack is one-sided (see checkPing).
 var pingPart = pbt.Part[Case]{Name: "ping", Quick: 48, Thorough: 640, Gen: genPing, Check: checkPing}
@@ -36,6 +37,9 @@ func checkPing(c Case, rec *pbt.Rec) pbt.Verdict {
 	}
 	o.w.mu.Unlock()
 	vs := judge(o)
+	if len(o.liveness) > 0 || o.leak != "" {
+		established.Store(true)
+	}
 	classify(c, o, rec)
 	rec.Label("ping:cases")
 	o.w.mu.Lock()
@@ -65,6 +69,9 @@ func checkCase(c Case, rec *pbt.Rec) pbt.Verdict {
 		return pbt.OK
 	}
 	vs := judge(o)
+	if len(o.liveness) > 0 || o.leak != "" {
+		established.Store(true)
+	}
 	classify(c, o, rec)
 
 	// differential oracle: a cancelling subscriber does not change what any other subscriber experiences.
@@ -107,7 +114,7 @@ func wellFormed(c Case) string {
 	}
 	seen := map[string]bool{}
 	for _, t := range c.Tuples {
-		if t.Endpoint < 0 || t.Endpoint > 1 || t.Header < 0 || t.Header > 2 || t.Init < 0 || t.Init > 2 || t.Proto < 0 || t.Proto > 2 || (t.SSE && (t.Proto > 1 || t.Init != 0)) {
+		if t.Endpoint < 0 || t.Endpoint > 1 || t.Header < 0 || t.Header >= len(headerSets) || t.Init < 0 || t.Init > 2 || t.Proto < 0 || t.Proto > 2 || (t.SSE && (t.Proto > 1 || t.Init != 0)) {
 			return "tuple coordinate out of range"
 		}
 		if seen[t.canonical()] {
@@ -128,7 +135,7 @@ func wellFormed(c Case) string {
 				return "sub step out of range or repeated"
 			}
 			subbed[s.Sub] = true
-		case "cancel", "send":
+		case "cancel", "expire", "send":
 			if s.Sub < 0 || s.Sub >= len(c.Subs) {
 				return "step subscription out of range"
 			}
@@ -153,7 +160,7 @@ func withoutCancels(c Case) (Case, map[int]bool) {
 	t.Steps = nil
 	cancelled := map[int]bool{}
 	for _, s := range c.Steps {
-		if s.Op == "cancel" {
+		if s.Op == "cancel" || s.Op == "expire" {
 			cancelled[s.Sub] = true
 			continue
 		}
@@ -191,6 +198,9 @@ func classify(c Case, o *outcome, rec *pbt.Rec) {
 		for b := a + 1; b < len(c.Tuples); b++ {
 			if d := diffCoord(c.Tuples[a], c.Tuples[b]); d != "" {
 				rec.Label("tuples-differ-only-in:" + d)
+				if d == "headers" && sameFirstValues(c.Tuples[a].Header, c.Tuples[b].Header) && !c.Tuples[a].SSE {
+					rec.Label("ws-tuples-differ-only-in-a-later-header-value")
+				}
 			}
 		}
 	}
@@ -274,6 +284,18 @@ func classify(c Case, o *outcome, rec *pbt.Rec) {
 		}
 		if len(st.inFlightCancel) > 0 {
 			inflightCancel = true
+		}
+		if st.expired {
+			rec.Label("left-by-own-deadline")
+			if st.earlyCancel {
+				for _, o := range w.subs {
+					for _, j := range o.inFlightCancel {
+						if j == i && !w.c.Tuples[w.c.Subs[i].Tuple].SSE {
+							rec.Label("own-deadline-passed-during-subscribe-while-another-same-tuple-subscribe-in-flight")
+						}
+					}
+				}
+			}
 		}
 		if st.cancelIssued {
 			switch {
